@@ -259,20 +259,26 @@ PROPS.update({
     },
     "C16": {
         "title": "A datagram is decoded from its own bytes only",
-        "verus": [],
+        "verus": [("transport", ["O-C16-"])],
         "native": [{"prog": "transport_bounded", "quick": ["search", "quick"], "thorough": ["search", "thorough"], "obligation": "O-C16-own-bytes-N",
                     "fn": "UdpTransport::receive", "file": "cfdp-daemon/src/transport.rs",
                     "bound": "every corpus PDU (every kind, both file-size flags, CRC on/off, id widths 1,8; thorough 1,2,4,8) and every truncation of it, delivered over loop-back UDP after a "
                              "longer datagram (the same PDU in full; 200 octets of 0xFF / 0x00 / 0x05 file data)"}],
         "level": "other",
-        "technique": "BOUNDED native check of the real UdpTransport::receive over loop-back UDP (differential against PDU::decode on the datagram's own bytes); no contract-based proof: the "
-                     "obligation is one argument expression inside an async trait method awaiting a socket, which neither Verus nor Kani verifies",
+        "technique": "deductive verification (Verus/Z3) of the body of UdpTransport::receive, extracted with declared rewrites (async/.await dropped, socket and decoder calls bound to "
+                     "contract stubs): the decoder's precondition `argument is exactly the received datagram` is discharged at its call site; + BOUNDED native check of the real "
+                     "async method over loop-back UDP (differential against PDU::decode on the datagram's own bytes)",
         "design_ref": "DESIGN.md 4/C16",
-        "level_text": "BOUNDED, not proved: for every (first, second) datagram pair of the enumeration, what receive() returns for the second datagram equals what PDU::decode returns on the "
-                      "second datagram's bytes alone (the same PDU, or an error) - stale octets of the longer first datagram never complete a truncated second one. Other transports, "
-                      "datagrams longer than the corpus, interleavings of several senders and the request() path are not covered.",
-        "level_note": "Native program replay/daemon_native/src/bin/transport_bounded.rs compiled against /repo's cfdp-daemon (path dependency; needs loop-back UDP on 127.0.0.1, as the "
-                      "repository's own series tests do). Bounded stand-in only: nothing here is counted as proved. A datagram not delivered within 5 s is reported as undecided (exit 2), never as a violation. ",
+        "level_text": "Proof + bounded. PROVED (all buffer contents, all datagram lengths, no bound): in UdpTransport::receive the slice handed to PDU::decode is exactly buffer[..n] for the n "
+                      "the socket call of the same invocation returned - stated with an uninterpreted predicate is_datagram that the ASSUMED recv_from contract grants to that prefix only "
+                      "and that the decoder stub requires, so any slice that can contain stale octets ([..], [..=n], [..len], min with the announced length, ...) fails the precondition; "
+                      "a PDU returned as Ok is the decoder's result on that datagram. The text verified is the method body minus `async`/`.await` (declared rewrites, R11). "
+                      "BOUNDED, not proved: for every (first, second) datagram pair of the enumeration, what the real async receive() returns for the second datagram equals what PDU::decode returns on the "
+                      "second datagram's bytes alone - this also exercises what the stubs assume (tokio's recv_from, the decoder reading nothing beyond its slice). Other transports, "
+                      "interleavings of several senders and the request() path are not covered.",
+        "level_note": VERUS_NOTE + "Assumed: tokio UdpSocket::recv_from writes the datagram to the front of the buffer and returns its length (stub vx_recv_from); PDU::decode reads only the slice it is given "
+                      "(safe Rust; its behaviour is C05/C06/C15). Native program replay/daemon_native/src/bin/transport_bounded.rs compiled against /repo's cfdp-daemon (path dependency; needs loop-back UDP on 127.0.0.1, as the "
+                      "repository's own series tests do); it is labelled bounded and not counted as proved. A datagram not delivered within 5 s is reported as undecided (exit 2), never as a violation. ",
     },
     "C17": {
         "title": "Limit faults fire after exactly the configured expirations; set handler runs",
